@@ -79,7 +79,9 @@ DERIVE = [
     ('unpack-bits', "a.unpack('bits')[0]"), ('unpack-n', "a.unpack('bits:2, bits')[1]"), ('cut', "next(a.cut(len(a)))"), ('cut2', "list(a.cut(2))[0]"),
     ('split', "list(a.split('0b11'))[0]"), ('split-last', "list(a.split('0b1'))[-1]"), ('tobitarray', "a.tobitarray()"),
     ('array-data', "bitstring.Array('u2', a)"), ('array-slice', "bitstring.Array('u2', a)[:]"), ('array-copy', "copy.copy(bitstring.Array('u2', a))"),
-    ('array-trailing', "bitstring.Array('u3', a).trailing_bits"), ('array-astype', "bitstring.Array('u2', a).astype('u4')"),
+    ('array-trailing', "bitstring.Array('u3', a).trailing_bits"), ('array-trailing-kw', "bitstring.Array('u2', trailing_bits=a)"),
+    ('array-trailing-kw2', "bitstring.Array('u2', [1, 2], trailing_bits=a)"), ('array-extend', "(lambda x: (x.extend(bitstring.Array('u2', a)), x)[1])(bitstring.Array('u2'))"),
+    ('array-data-set', "(lambda x: (setattr(x, 'data', bitstring.BitArray(a)), x)[1])(bitstring.Array('u2'))"), ('array-astype', "bitstring.Array('u2', a).astype('u4')"),
     ('bits-setter', "(lambda x: (setattr(x, 'bits', a), x)[1])(bitstring.{T}())"),
     ('append-to-empty', "(lambda x: (x.append(a), x)[1])(bitstring.BitArray())"), ('prepend-to-empty', "(lambda x: (x.prepend(a), x)[1])(bitstring.BitStream())"),
     ('iadd-to-empty', "(lambda x: x.__iadd__(a))(bitstring.BitArray())"), ('insert-into', "(lambda x: (x.insert(a, 0), x)[1])(bitstring.BitArray())"),
